@@ -308,6 +308,9 @@ def dclass(d):
 
 def classify(fmt, spec, o0, o1, kind, diff, msg, exp, imp):
     isint = lambda v: isinstance(v, int) and not isinstance(v, bool)
+    if kind == 'export-raised' and fmt == 'aif' and exp == 'TypeError' and o0['cls'] == 'point' and \
+            any(isinstance(v, float) and v != v for row, _ in o0['rows'] for v in row.values()):
+        return 'C07:aif:uncarried-value-missing-cell-TypeError'
     if kind == 'import-raised' and fmt == 'aif' and imp == 'other:OSError' and 'File name too long' in msg:
         return 'C07:aif:string-import-OSError-file-name-too-long'
     if kind == 'content' and diff[0] in ('branch', 'cell') and fmt == 'aif' and o0['cls'] == 'point':
